@@ -310,6 +310,9 @@ pub fn print_events(out: &mut String, evs: &[Ev], dc0: Option<bool>, full: bool)
                 .map(|(d, a, b)| format!("{}{}*{}", if *d { "d" } else { "" }, a, b))
                 .collect();
             out.push_str(&format!("Z {} {} {} {}", run.len(), h1, h2, s.join(",")));
+            if run.len() > HEXMAX && run.iter().all(|b| *b == run[0]) {
+                out.push_str(&format!(" u={:02x}", run[0]));
+            }
             if full || run.len() <= HEXMAX {
                 out.push(' ');
                 out.push_str(&hex(run));
